@@ -176,7 +176,7 @@ def data_cases(rnd, n=300):
             yield {"lines": L("SYM EQU 7", " %s %s" % (mn, e)), "tag": "data1", "meta": {"mn": mn, "elems": [e], "stmt": 1}}
         for _ in range(n // 4):
             k = rnd.choice([2, 2, 3, 5, 16, 64])
-            es = [rnd.choice(ELEMS[:13]) if rnd.random() < 0.85 else rnd.choice(ELEMS) for _ in range(k)]
+            es = [rnd.choice(ELEMS[:13]) if rnd.random() < 0.8 else rnd.choice(ELEMS) for _ in range(k)]
             yield {"lines": L("SYM EQU 7", " %s %s" % (mn, ",".join(es))), "tag": "dataN", "meta": {"mn": mn, "elems": es, "stmt": 1}}
     for v in [0, 1, 2, 5, 255, 256, 1000, 65535, -1, "$10", "$0100", "SYM", ""]:
         yield {"lines": L("SYM EQU 7", " RMB %s" % v, " NOP"), "tag": "rmb", "meta": {"mn": "RMB", "v": v, "stmt": 1}}
@@ -195,6 +195,14 @@ def data_cases(rnd, n=300):
         (["N EQU -1", " RMB N"], None),                        # a negative count
         (["N EQU -2", " FCB N", " FDB N", " FDB N+1", " FCB N*2"], {1: "fe", 2: "fffe", 3: "ffff", 4: "fc"}),
         (["S EQU -5", " ORG S"], None),                        # a negative origin
+        # symbols, expressions and labels inside LISTS (jump tables), evaluated since the list repair
+        ([" ORG $2000", "T FDB L1,L2,T,$1234,L1+1,L2-L1", "L1 NOP", "L2 RTS"], {1: "200c200d20001234200d0001"}),
+        (["S EQU 7", " FCB 1,S,S*2,'A,S+1", " FDB S,1,S-8"], {1: "01070e4108", 2: "00070001ffff"}),
+        ([" ORG $10", "L NOP", " FCB L,1,L+1", " FDB L,L"], {2: "100111", 3: "00100010"}),
+        ([" FDB E,1", "E EQU A+1", "A EQU 5"], {0: "00060001"}),
+        ([" ORG $100", "L NOP", " FCB 1,L"], None), ([" FCB 1,UNDEF"], None), ([" FDB 1,A", "A EQU B+1", "B EQU A+1"], None), ([" FCB 1,S", "S EQU 300"], None),
+        ([" FCB 1,S", "S EQU -129"], None), ([" FDB 5/Z,1", "Z EQU 0"], None), (["L FDB L/0,1"], None), ([" FCB 1,#5"], None), ([" FCB 1,1+"], None),
+        ([" FCB 1,<S", "S EQU 5"], {0: "0105"}), ([" FCB S,", "S EQU 5"], {0: "05"}), ([" FDB ,L", "L NOP"], {0: "0002"}),
         (["N EQU -200", " FCB N"], None), (["N EQU -129", " FCB N"], None), (["N EQU -255", " FCB N"], None), (["N EQU 0-200", " FCB N"], None),
         ([" FCB N", "N EQU -200"], None), (["N EQU 256", " FCB N"], None),
         (["N EQU -128", " FCB N", " FDB N"], {1: "80", 2: "ff80"}), (["N EQU -32768", " FDB N"], {1: "8000"}), (["N EQU 255", " FCB N"], {1: "ff"}),
@@ -471,7 +479,7 @@ def random_programs(rnd, n, valid_bias=0.8):
                 elif mn == "FCC":
                     op = rnd.choice(["\"HI THERE\"", "'x'", "/A B/"])
                 elif mn in ("FCB", "FDB"):
-                    op = rnd.choice(["1", "1,2,3", "$FF", "C1", "$12" if mn == "FCB" else "$1234"])
+                    op = rnd.choice(["1", "1,2,3", "$FF", "C1", "$12" if mn == "FCB" else "$1234", "1,C1", "C1,C2" if mn == "FCB" else "L1,L2,C1+1"])
                 elif mn == "RMB":
                     op = rnd.choice(["1", "4", "100"])
                 elif mn in ("EQU", "ORG", "INCLUDE", "END", "NAM", "SETDP"):
